@@ -160,6 +160,13 @@ def run(R, tier):
                 viol('asmatrix-hom', f'(x*y).asmatrix() != x.asmatrix() @ y.asmatrix() for x={x}, y={y} in Algebra({desc})', BK, algebra=spec, x=x, y=y)
             if not mateq((mx + my).asmatrix(), Mx + My):
                 viol('asmatrix-linear', f'(x+y).asmatrix() != sum for x={x}, y={y}', BK, algebra=spec, x=x, y=y)
+            # float coefficients of very different magnitudes: every one comes back exactly (the matrix entries are +-coefficients)
+            fv = [rng.choice((1.0, 2.5e-9, 0.5, -3e-12, 7e-15, 1e6)) * rng.choice((1, -1)) for _ in ka]
+            fx = oc.make_mv(alg, ka, fv)
+            fback = MultiVector.frommatrix(alg, fx.asmatrix())
+            R.case((desc, 'frommatrix-float', ka, tuple(fv)), True)
+            if {int(k_): float(v_) for k_, v_ in zip(fback.keys(), fback.values()) if v_ != 0} != {int(k_): v_ for k_, v_ in zip(ka, fv)}:
+                viol('frommatrix', f'frommatrix(asmatrix(x)) = {dict(zip(fback.keys(), fback.values()))} for the float multivector x = {dict(zip(ka, fv))} in Algebra({desc})', BK, algebra=spec, x=list(zip(ka, fv)))
             back = MultiVector.frommatrix(alg, Mx)
             if not oc.same_element(oc.observe(back), x):
                 viol('frommatrix', f'frommatrix(asmatrix(x)) = {oc.observe(back)} for x={x}', BK, algebra=spec, x=x)
@@ -197,6 +204,11 @@ def run(R, tier):
             Rm = alg.multivector([rng.randint(-3, 3) or 1 for _ in range(nR)], grades=gR)
         else:
             Rm = alg.multivector([np.array([float(rng.randint(-3, 3) or 1), float(rng.randint(-3, 3) or 2)]) for _ in range(nR)], grades=gR)
+        if kind != 'symbolic' and it >= 2 * len(forms) and len(Rm.keys()) > 1 and rng.random() < 0.5:
+            # the same element with its blades stored in another order (e.g. built from a mapping or from explicit keys)
+            order_ = list(range(len(Rm.keys()))); rng.shuffle(order_)
+            Rm = MultiVector.fromkeysvalues(alg, tuple(Rm.keys()[i_] for i_ in order_), [Rm.values()[i_] for i_ in order_])
+            R.count('expr_as_matrix:other input stored in a permuted order')
         res_like = None
         if it >= 2 * len(forms) and rng.random() < 0.5:      # only some canonical keys, in any order, also keys y does not store
             rk = rng.sample(list(alg.canon2bin.values()), rng.randint(1, min(4, 2 ** d)))
@@ -247,6 +259,16 @@ def run(R, tier):
                     if not np.allclose(lhs, rhs, rtol=1e-9, atol=1e-9):
                         viol('expr_as_matrix', f'A.x != y for {name} with an array-valued R (element {idx}): {lhs} vs {rhs}', expression=name, kind=kind)
                         break
+                    # ... and y is the expression applied to that element of R and x (not only consistent with A)
+                    if res_like is None:
+                        Rel = MultiVector.fromkeysvalues(alg, Rm.keys(), [float(np.asarray(v_).reshape(-1)[idx]) for v_ in Rm.values()])
+                        direct = f(Rel, x)
+                        dmap = {int(k_): float(sympy.sympify(v_).subs(vals)) for k_, v_ in zip(direct.keys(), direct.values())}
+                        ymap = {int(k_): r_ for k_, r_ in zip(y.keys(), rhs)}
+                        if any(abs(dmap.get(k_, 0.0) - ymap.get(k_, 0.0)) > 1e-9 * max(1.0, abs(dmap.get(k_, 0.0))) for k_ in set(dmap) | set(ymap)):
+                            viol('expr_as_matrix', f'y is not the expression applied to the inputs for {name} with an array-valued R stored on blades {list(Rm.keys())} (element {idx}): '
+                                                   f'y = {ymap}, {name} on that element = {dmap}', expression=name, kind=kind)
+                            break
             else:
                 if len(A) == 0:              # y stores no blade: A has no rows
                     lhs = []
